@@ -122,6 +122,45 @@ def _guardeval(run, P):
                "runs although its guard is false when it is visited")
 
 
+def _iterative_plan(run, P, up):
+    """Depth-first planning with an explicit stack.  One way of getting it wrong is
+    decided here: ids that are entered into the 'already taken care of' set when a whole
+    batch of dependencies is pushed.  A dependency shared by two of them is then skipped
+    under the second, which is finished - appended to the plan - before the shared one."""
+    units = [up]          # ast.walk descends into the nested helpers
+    whiles = [w for w in ast.walk(up.node) if isinstance(w, ast.While) and isinstance(w.test, ast.Name)]
+    if not whiles:
+        return
+    stack = whiles[0].test.id
+    # sets whose membership makes the walk skip an id
+    skip_sets = set()
+    for u in units:
+        for t in ast.walk(u.node):
+            if isinstance(t, ast.If) and isinstance(t.test, ast.Compare) and len(t.test.ops) == 1 \
+                    and isinstance(t.test.ops[0], ast.In) and isinstance(t.test.comparators[0], ast.Name) \
+                    and t.body and isinstance(t.body[-1], (ast.Continue, ast.Return)):
+                skip_sets.add(t.test.comparators[0].id)
+    n = 0
+    for u in units:
+        for lp in ast.walk(u.node):
+            if not isinstance(lp, ast.For) or not isinstance(lp.target, ast.Name):
+                continue
+            v = lp.target.id
+            pushes = [x for x in ast.walk(lp) if isinstance(x, ast.Call) and dotted(x.func) == f"{stack}.append"
+                      and any(isinstance(y, ast.Name) and y.id == v for y in ast.walk(x))]
+            marks = [x for x in ast.walk(lp) if isinstance(x, ast.Call) and isinstance(x.func, ast.Attribute)
+                     and x.func.attr == "add" and isinstance(x.func.value, ast.Name)
+                     and x.func.value.id in skip_sets and x.args and dotted(x.args[0]) == v]
+            if pushes:
+                n += 1
+                run.ob("C04.post", u, marks[0] if marks else lp, not marks,
+                       construct=f"ids are not entered into the skip set "
+                                 f"({sorted(skip_sets)}) while a batch of them is pushed on '{stack}'",
+                       why="a dependency that two statements of the batch share is skipped under the "
+                           "one that is popped first; that one is appended to the plan before the "
+                           "shared dependency: it runs before what it depends on")
+
+
 def _post(run, P, C):
     up = C.methods.get("update_plan")
     if up is None:
@@ -133,6 +172,7 @@ def _post(run, P, C):
                and x.func.id == f.name for x in ast.walk(f.node)):
             helper = f
     if helper is None:
+        run.do(_iterative_plan, run, P, up)
         raise AnalysisError("update_plan: recursive insertion helper not found")
     g = CFG(helper.node)
     appends = g.find(lambda n, fr: n.kind == "stmt" and any(
